@@ -751,7 +751,7 @@ theorem C11_strict_reading_witness :
     (let a := runMv (init .default 4) (strictRun.take 7)
      a.p = .c4 ∧ a.w = [.k1] ∧ a.word = 1 ∧ a.returns = 0 ∧ a.oblig = false) ∧
     (let b := runMv (init .default 4) (strictRun.take 9)
-     b.p = .c4 ∧ b.w = [.done] ∧ b.word = 3 ∧ b.cq = 2 ∧ b.sq = [] ∧ b.returns = 0 ∧
+     b.p = .c4 ∧ b.w = [.done] ∧ b.word = 3 ∧ b.cq = 3 ∧ b.sq = [] ∧ b.returns = 0 ∧
      b.oblig = true) ∧
     -- (3) that poll returns after the wake call, consuming the wake's completion
     (let c := runMv (init .default 4) (strictRun.take 11)
@@ -855,7 +855,7 @@ theorem C11_retry_must_enter :
     (let r := runMv (init .default 1) retryRun
      r.p = .waiting ∧ r.oblig = true ∧ r.w = [.enter true 1] ∧ r.cq = 0 ∧ r.sq = [true]) ∧
     (let r := runMv (init .default 1) (retryRun ++ [.w 0])
-     r.p = .waiting ∧ r.w = [.done] ∧ r.cq = 1 ∧ r.sq = [] ∧ (stepP r).p = .c4) := by
+     r.p = .waiting ∧ r.w = [.done] ∧ r.cq = 2 ∧ r.sq = [] ∧ (stepP r).p = .c4) := by
   decide
 
 /-! ### Non-vacuity -/
@@ -960,17 +960,17 @@ def runMvL (inf : Bool) (s : St) : List Mv → St
   | [] => s
   | m :: ms => runMvL inf (stepMvL inf s m) ms
 
-/-- Completion queue of two slots: the poll blocks, an unrelated completion arrives, a wake
-call runs to completion (its message is the second completion: the queue is exactly full),
+/-- Completion queue of two slots: the poll blocks, a wake call runs to completion (its message
+and the completion of the MSG_RING submission are two completions: the queue is exactly full),
 the poller processes both. -/
 def exactFullRun : List Mv :=
-  [.poll true, .p, .p, .p, .io, .call 0, .w 0, .w 0, .p, .p, .p, .p, .p, .p]
+  [.poll true, .p, .p, .p, .call 0, .w 0, .w 0, .p, .p, .p, .p, .p, .p]
 
 /-- The real protocol returns from that poll (the queue was exactly full, nothing overflew);
 the go-round-again variant consumes the wake-up and blocks again with nothing left that
 could wake it, although the wake call completed: a lost wake-up. -/
 theorem C11_exact_full_returns_and_second_pass_loses_wake :
-    (let s := runMv (initC .default 2 2) (exactFullRun.take 8)
+    (let s := runMv (initC .default 2 2) (exactFullRun.take 7)
      s.p = .waiting ∧ s.cq = 2 ∧ s.cq = s.cqLen ∧ s.ovf = 0 ∧ s.w = [.done]) ∧
     (let s := runMv (initC .default 2 2) exactFullRun
      s.p = .idle ∧ s.returns = 1 ∧ s.avail = 0) ∧
@@ -994,7 +994,7 @@ was meant for: hypotheses of `C11_no_lost_wake` with the message on the overflow
 example :
     let s := runMv (initC .default 1 1) [.poll true, .p, .p, .p, .call 0, .io, .w 0, .w 0]
     Reachable s ∧ s.p = .waiting ∧ s.oblig = true ∧ (∀ pc ∈ s.w, pc = .done) ∧
-    s.cq = 1 ∧ s.ovf = 1 :=
+    s.cq = 1 ∧ s.ovf = 2 :=
   ⟨⟨.default, 1, 1, _, by decide, by decide, rfl⟩, by decide⟩
 
 end A10.Wake
